@@ -1413,7 +1413,81 @@ def caches_survive_backward(idx: ProgramIndex, rep: Report):
                 rep.add("C03-11", "%s:%s.%s[self.%s]" % (cls.module.name, cls.qualname, mname, a.targets[0].attr), "%s:%d" % (m.module.relpath, a.lineno), det,
                         "stored detached when settings.detach_test_caches is on" if det else
                         "the evaluation-mode cache self.%s keeps the autograd graph of `%s`: after one backward pass through a prediction the next differentiated prediction raises 'Trying to backward through the graph a second time'" % (a.targets[0].attr, " ".join(src(v).split())[:40]), {})
+    # (c) values PLANTED into those memo entries by other code (fantasy strategies): the entry then never goes through the @cached member
+    #     that honours the convention, so the planter has to: graph-free value, or a clear_cache_hook on its grad_fn; for names whose member
+    #     only detaches under the setting, a value that is detached under the setting.
+    judged = {}
+    for cls in strategies:
+        for mname, m in cls.methods.items():
+            cname, _ig = cache_name_of(m)
+            if cname is not None:
+                ok_, why_ = honours(m.node)
+                if not ok_:
+                    for c in calls_in(m.node):
+                        if isinstance(c.func, ast.Attribute) and chain(c.func.value) == "self":
+                            t = cls.lookup(c.func.attr)
+                            if t is not None and t is not m and honours(t.node)[0]:
+                                ok_, why_ = True, honours(t.node)[1]
+                if ok_:
+                    judged.setdefault(cname, set()).add(why_)
+    hookers = {f.name for f in idx.all_functions() if f.cls is None and any(isinstance(c, ast.Call) and isinstance(c.func, ast.Attribute) and c.func.attr == "register_hook" for c in ast.walk(f.node))}
+    np_ = 0
+    for fi in idx.all_functions():
+        for c in calls_in(fi.node):
+            if not (isinstance(c.func, ast.Name) and c.func.id == "add_to_cache" and len(c.args) >= 3):
+                continue
+            cname = const_str(c.args[1])
+            if cname not in judged:
+                continue
+            np_ += 1
+            v = c.args[2]
+            verdict = _planted_value_honours(fi, c, v, hookers)
+            needs_hook = any("hook" in w for w in judged[cname])
+            ok = verdict in ("hooked", "graph-free") or (verdict == "detached under the setting" and not needs_hook)
+            rep.add("C03-11", "%s:%s[plants %s]" % (fi.module.name, fi.qualname, cname), "%s:%d" % (fi.module.relpath, c.lineno), ok,
+                    "the planted value is %s" % verdict if ok else
+                    "`%s` is planted into the memo entry '%s' %s and without a clear_cache_hook on its grad_fn: the @cached reader registers one, so a model that got this entry planted (a fantasy model) can be back-propagated through once only - the second pass raises 'Trying to backward through the graph a second time', a model built from scratch does not"
+                    % (" ".join(src(v).split())[:40], cname, "with its autograd graph" if verdict == "with graph" else "(%s)" % verdict), {})
+    rep.floor("C03-11", "planted prediction caches", np_, 4)
     rep.floor("C03-11", "evaluation-mode caches on the prediction path", n, 8)
+
+
+def _planted_value_honours(fi: FuncInfo, site: ast.Call, v: ast.AST, hookers: Set[str], depth: int = 0) -> str:
+    """'hooked' | 'graph-free' | 'detached under the setting' | 'with graph'"""
+    # under torch.no_grad()
+    for w in ast.walk(fi.node):
+        if isinstance(w, ast.With) and any("no_grad" in src(i.context_expr) for i in w.items) and any(x is site for x in ast.walk(w)):
+            return "graph-free"
+    while isinstance(v, ast.Call) and isinstance(v.func, ast.Attribute) and v.func.attr in ("to_dense", "squeeze", "unsqueeze", "contiguous", "clone", "view", "reshape", "expand"):
+        v = v.func.value
+    if isinstance(v, ast.Call) and isinstance(v.func, ast.Attribute) and v.func.attr == "detach":
+        return "graph-free"
+    if isinstance(v, ast.Call) and isinstance(v.func, ast.Name) and v.func.id in hookers:
+        return "hooked"
+    if not isinstance(v, ast.Name) or depth > 4:
+        return "with graph"
+    name = v.id
+    # a hook registered on the name
+    for c in calls_in(fi.node):
+        if isinstance(c.func, ast.Attribute) and c.func.attr == "register_hook" and chain(c.func.value) == "%s.grad_fn" % name:
+            return "hooked"
+    assigns = [a for a in ast.walk(fi.node) if isinstance(a, ast.Assign) and any(isinstance(t, ast.Name) and t.id == name for t in a.targets) and a.lineno <= site.lineno]
+    if not assigns:
+        return "with graph"
+    verdicts = []
+    for a in assigns:
+        if isinstance(a.value, ast.Call) and isinstance(a.value.func, ast.Name) and a.value.func.id in hookers:
+            return "hooked"
+        sub = _planted_value_honours(fi, site, a.value, hookers, depth + 1) if not (isinstance(a.value, ast.Name) and a.value.id == name) else "with graph"
+        guards = [g for g in _enclosing_ifs(fi.node, a) if "detach_test_caches" in src(g)]
+        verdicts.append((sub, bool(guards)))
+    if all(sv == "graph-free" for sv, _g in verdicts):
+        return "graph-free"
+    if any(sv == "hooked" for sv, _g in verdicts):
+        return "hooked"
+    if any(sv == "graph-free" and g for sv, g in verdicts):
+        return "detached under the setting"
+    return "with graph"
 
 
 def _enclosing_ifs(fn: ast.AST, target: ast.AST) -> List[ast.AST]:
